@@ -117,6 +117,19 @@ def run_history(ctx, case, sparse=False):
                     return flags
                 ctx.check(mg.bar_snapshot(bar) == before and bar.current_beat == cb, "refused-changed-bar", where)
             last_rm = False
+        elif kind == "empty":  # the same Bar object is emptied and used again
+            ctx.ok("empty", bar.empty)
+            model.entries, model.total = [], Fr(0)
+            last_rm = False
+        elif kind == "meter":  # a new meter for an empty bar
+            if model.entries:
+                continue
+            r = ctx.ok("set_meter", bar.set_meter, (op[1][0], op[1][1]))
+            if failed(r):
+                return flags
+            model = BarModel(op[1])
+            meter = op[1]
+            ctx.check(abs(bar.length - (float(model.L) if model.L is not None else 0.0)) <= 1e-12, "length", lambda: "%s: length %r" % (where, bar.length))
         elif kind == "rm":
             if not model.entries:
                 continue
@@ -281,7 +294,9 @@ def _ops_st():
     rm = st.just(["rm"])
     seti = st.tuples(st.just("set"), st.integers(0, 50), st.sampled_from([f for f in mg.FORMS if f != "listpair"]), _notes_st()).map(list)
     at = st.tuples(st.just("at"), st.integers(0, 50), _notes_st()).map(list)
-    return st.one_of(place, place, rest, plus, fill, rm, seti, at)
+    empty = st.just(["empty"])
+    meter = st.tuples(st.just("meter"), st.sampled_from(METERS)).map(list)
+    return st.one_of(place, place, place, rest, rest, plus, fill, fill, rm, seti, at, empty, st.tuples(empty, meter).map(lambda t: t[0]), meter)
 
 
 def sub_random(ctx, shard, n):
